@@ -294,6 +294,16 @@ def materialise_kwargs(ctx, scn, model):
                          clock=ctx.clock, notebook=ctx.nb, mode=pool.get("mode", "shuffle"))
             ctx.sim_pool = sp
             kwargs["pool"] = sp
+    if scn.get("class_objects"):
+        # pass classes instead of their names (config.json must still be written; C19)
+        from nessai.proposal.utils import get_flow_proposal_class
+
+        kwargs["flow_proposal_class"] = get_flow_proposal_class(kwargs.get("flow_proposal_class"))
+        if scn["sampler"] == "ns" and kwargs.get("analytic_priors") is None:
+            from nessai.proposal import RejectionProposal
+
+            kwargs["uninformed_proposal"] = RejectionProposal
+            kwargs.setdefault("uninformed_proposal_kwargs", {"poolsize": kwargs.get("nlive", 100)})
     if scn.get("callback"):
         # non-serialisable value nessai accepts (C19 config.json clause)
         kwargs["checkpoint_callback"] = default_like_callback
